@@ -297,8 +297,13 @@ class DirectCollocation(SamplingMethod):
             else:
                 # Row vector if vector
                 if value.is_column() and var.is_scalar(): value = value.T
+                vars_last_interval = set(hash(e) for e in ca.symvar(self.eval_at_control(stage, var, self.N-1)))
                 for k in list(range(self.N))+[-1]:
                     target = self.eval_at_control(stage, var, k)
+                    if k==-1 and set(hash(e) for e in ca.symvar(target))==vars_last_interval:
+                        # Controls and per-interval variables have no separate value at the final node:
+                        # do not overwrite the last interval with the guess at t_f
+                        continue
                     value_k = value
                     if target.numel()*(self.N)==value.numel() or target.numel()*(self.N+1)==value.numel():
                         value_k = value[:,k]
